@@ -303,9 +303,9 @@ def run_corpus(pid, name, scheds, verdict, shards=8, light=False, net="regtest",
     if pid == "C03":
         # C03 is differential by nature: a run that is rejected WITH its commits but accepted WITHOUT them shows that the
         # commit placement is observable, whatever the event at which the difference surfaced
-        # (only for runs without clear / restart: there the commit placement legitimately decides what survives)
+        # (only when no clear / restart precedes the rejected call: there the commit placement legitimately decides what survives)
         cand = [rj for rj in rejs if "C03" not in rj["props"] and rj.get("schedule") and any(st.get("op") == "commit" for st in rj["schedule"])
-                and not any(st.get("op") in ("clear", "restart") for st in rj["schedule"])]
+                and not any(st.get("op") in ("clear", "restart") for st in rj["schedule"][:max(0, int(rj.get("event_index_in_run") or 0) - 1)])]
         if cand:
             variants = [[st for st in rj["schedule"] if st.get("op") != "commit"] for rj in cand[:12]]
             tp2, sp2, _ = play(name + "_nocommit", variants, shards=min(shards, len(variants)), light=light, net=net, traces=traces)
